@@ -19,7 +19,7 @@ def obligations(tier):
     for f in ("rules_sm", "rules_ssc"):
         if tier == "quick":
             pfxs = (0, 5) if f == "rules_sm" else (0, 4)
-            k1s = (0, 1, 2, 3, 4, 8) if f == "rules_sm" else (0, 1, 2, 3, 4, 8, 10, 11)
+            k1s = (0, 1, 2, 3, 4, 7, 8) if f == "rules_sm" else (0, 1, 2, 3, 4, 7, 8, 10, 11)
         else:
             pfxs, k1s = range(7), range(13)
         for pfx in pfxs:
